@@ -169,6 +169,8 @@ pub fn build(v: &VSpec, sigs: &Signals, item: Option<i64>) -> View {
                 "div" => finish!(tags::div()),
                 "span" => finish!(tags::span()),
                 "p" => finish!(tags::p()),
+                "script" => finish!(tags::script()),
+                "style" => finish!(tags::style()),
                 "br" => finish!(tags::br()),
                 "input" => finish!(tags::input()),
                 "ul" => finish!(tags::ul()),
